@@ -392,10 +392,55 @@ fn err_tree(s: &str) -> Tree {
     parse_debug(s).as_ref().and_then(dv_tree).unwrap_or(tl![A(-1)])
 }
 
-fn fin<T: ToVal, E: std::fmt::Debug>(r: Result<T, E>) -> Tree {
+/// "the error identifies which part or which element failed" also through its MESSAGES: walking the source chain, a
+/// level whose debug form says `First` / `Second` must not, in its message, name the other ordinal (a message that
+/// names neither, or both, makes no claim), and a level that carries an element index must not name other numbers
+/// only
+fn messages_consistent(e: &(dyn std::error::Error + 'static)) -> bool {
+    let mut cur: Option<&(dyn std::error::Error + 'static)> = Some(e);
+    let mut depth = 0;
+    while let Some(x) = cur {
+        let text = x.to_string().to_lowercase();
+        if let Some(Dv::Node(name, kids)) = parse_debug(&format!("{x:?}")) {
+            let nodes = kids.iter().filter(|k| matches!(k, Dv::Node(..))).count();
+            let ints: Vec<i64> = kids.iter().filter_map(|k| if let Dv::Int(i) = k { Some(*i) } else { None }).collect();
+            let (first, second) = (text.contains("first"), text.contains("second"));
+            if (name == "First" || name.ends_with("::First")) && second && !first {
+                return false;
+            }
+            if (name == "Second" || name.ends_with("::Second")) && first && !second {
+                return false;
+            }
+            if name != "ProbeErr" && nodes == 1 && ints.len() == 1 {
+                let mut named: Vec<i64> = vec![];
+                let mut digits = String::new();
+                for ch in text.chars().chain(std::iter::once(' ')) {
+                    if ch.is_ascii_digit() {
+                        digits.push(ch);
+                    } else if !digits.is_empty() {
+                        if let Ok(v) = digits.parse::<i64>() {
+                            named.push(v);
+                        }
+                        digits.clear();
+                    }
+                }
+                if !named.is_empty() && !named.contains(&ints[0]) {
+                    return false;
+                }
+            }
+        }
+        cur = x.source();
+        depth += 1;
+        if depth > 64 {
+            return false;
+        }
+    }
+    true
+}
+fn fin<T: ToVal, E: std::error::Error + 'static>(r: Result<T, E>) -> Tree {
     match r {
         Ok(v) => tl![A(0), v.val()],
-        Err(e) => tl![A(1), err_tree(&format!("{e:?}"))],
+        Err(e) => tl![A(1), if messages_consistent(&e) { err_tree(&format!("{e:?}")) } else { tl![A(-2)] }],
     }
 }
 
